@@ -33,7 +33,7 @@ CHECKS = {
     "C05": dict(
         level="model_checking",
         technique="TLA+ state machine of the Brandes search and accumulation (BrandesMech) model-checked against the exact rational betweenness defined in TLA+ over the path sets, for every heap pop order; TLC-enumerated families + random graphs replayed; TLC trace monitor",
-        text="betweenness_centrality (weighted x normalized) of every enumerated / random graph equals the exact rational definition (sum over ordered pairs of the fraction of shortest paths through v, halving / (n-1)(n-2) conventions).",
+        text="betweenness_centrality (weighted x normalized) of every enumerated / random graph equals the exact rational definition (sum over ordered pairs of the fraction of shortest paths through v, halving / (n-1)(n-2) conventions); on graphs with 2^64 and more shortest paths between two nodes (beyond the exact oracle) the sum identity with the distances and well-formedness of the result are checked instead.",
         note=ALG_NOTE, design="4/C05"),
     "C06": dict(
         level="model_checking",
@@ -43,7 +43,7 @@ CHECKS = {
     "C08": dict(
         level="model_checking",
         technique="nondeterministic TLA+ contract (Paths!SSOK: options restrict, never change) evaluated by a TLC trace monitor over the full option grid; symmetry and triangle inequality model-checked",
-        text="For every source of every enumerated / random graph the whole grid target x cutoff (below, at, between and above every distinct distance) x first_only x with_paths, plus all_pairs / multi_source variants and get_all_shortest_paths_involving, is judged by the contract; all entry points are compared with the same specification value, hence with one another.",
+        text="For every source of every enumerated / random graph the whole grid target x cutoff (below, at, between and above every distinct distance) x first_only x with_paths, plus all_pairs / multi_source variants and get_all_shortest_paths_involving, is judged by the contract; all entry points are compared with the same specification value, hence with one another; on weights that are not exactly representable the cutoff / target answers are compared bit for bit with the library's own unrestricted answer (the relation the property states).",
         note=ALG_NOTE, design="4/C08"),
     "C09": dict(
         level="model_checking",
